@@ -378,6 +378,15 @@ def _shard(shard, col: Collector):
                         if any(mix) and repeats <= 2:
                             rec("batch", {"n": n, "mix": mix, "repeats": repeats, "crit": crit, "parallel": parallel, "loaded": True},
                                 check_batch(n, mix, repeats, crit, parallel, False, True), True)
+        # batches far larger than the enumerated ones
+        for n in (31, 32, 33, 63, 64, 65, 100, 128, 129, 257) + (() if parallel else (1000, 1025)):
+            for pat in (2, 3, 0):
+                mix = tuple((i % pat == 0) if pat else False for i in range(n))
+                for crit in ("minimize", "maximize"):
+                    rec("batch", {"n": n, "mix_every": pat, "repeats": 2, "crit": crit, "parallel": parallel},
+                        [(k, m[:400]) for k, m in check_batch(n, mix, 2, crit, parallel)], True)
+                rec("batch", {"n": n, "mix_every": pat, "repeats": 1, "crit": "minimize", "parallel": parallel, "loaded": True},
+                    [(k, m[:400]) for k, m in check_batch(n, mix, 1, "minimize", parallel, False, bool(pat))], True)
         col.sample({"kind": "batch", "n": 3, "already_evaluated": [False, True, False], "repeats": 2, "parallel": parallel}, 1)
     elif kind == "signed":
         _, m = shard
@@ -432,6 +441,10 @@ def _shard(shard, col: Collector):
 
 
 def replay(sub, case):
+    if sub == "batch" and "mix_every" in case:
+        pat = case["mix_every"]
+        mix = tuple((i % pat == 0) if pat else False for i in range(case["n"]))
+        return check_batch(case["n"], mix, case["repeats"], case["crit"], case["parallel"], False, case.get("loaded", False))
     if sub == "batch":
         return check_batch(case["n"], tuple(case["mix"]), case["repeats"], case["crit"], case["parallel"], case.get("same_ids", False), case.get("loaded", False))
     if sub == "signed":
